@@ -15,22 +15,35 @@ with its short-circuit simplifications), `checkExpr`/`derefLevel`/`derefErrs` (m
 
 PROVED for the WHOLE mirrored checker (every expression form):
   * `level_monotone`, `level_monotone_policy` — acceptance at level n implies acceptance at level n+1;
-  * `slice_monotone`, `slice_lookup` — the slice grows with n and is a sub-store of whole entities;
+  * `slice_monotone`, `slice_lookup`, `slice_complete` — the slice grows with n and is a sub-store of whole entities;
   * `deref_within` (the key lemma) — a dereference target of level k only evaluates to entities within k hops;
   * `level_sound_partial` — for a typed expression `te` whose kind annotations agree with the run-time values (`Kinds`),
     in the environment of the request's action: no level errors at level n ⇒ `te` evaluates over `atLevel n req store`
     exactly as over `store`;
-  * `level_sound_fragment` — for the connective-free part of C03's proved fragment (`.`/`has` chains through entities
-    and records, literals, variables, `!`, `-`, `+ - *`, `==`, `like`, `is`) the hypothesis `Kinds` is DERIVED from typechecker
-    acceptance + conformance (C03 `typeOf_sound_aux`), and the typed AST is the expression itself: the statement is
-    about `evaluate e` with no semantic hypothesis left;
-  * `level_sound_authorization` — lifted to `isAuthorized` (same response, hence — with C01's characterisations — the same
-    decision, determining policies and erroring policies) for policy sets whose typed ASTs are level-n accepted.
-FULL STATEMENT: `level_sound` (a `def … : Prop`): the same conclusion from *typechecker acceptance and conformance* of
-request and store instead of the two semantic hypotheses `Kinds` (annotations agree with values) and `Faithful` (the
-typed AST evaluates like the condition).  Both are consequences of typechecker soundness (C03 `typeOf_sound`, itself
-proved for a fragment only); that derivation is NOT proved here.  It is covered by the implementation-level search of
-harness/src/c16.rs (slice vs full store on every generated accepted policy set, conformant requests and stores).
+  * `level_sound_authorization`, `level_sound_sets` — lifted to `isAuthorized` (same response, hence — with C01's
+    characterisations — the same decision, determining policies and erroring policies) for policy sets whose typed ASTs are
+    level-n accepted (`LevelOk`: typed AST `Faithful` on store and slice, `Kinds`, `checkLevel`).
+THE FULL STATEMENT `level_sound` IS PROVED (`level_sound_strict : level_sound`), for EVERY construct of strictly valid static
+policies: the two semantic hypotheses `Kinds` and `Faithful` are DERIVED from typechecker acceptance + conformance with
+C03's strict-mode typechecker soundness (`soundM`, Lemmas/TypecheckSound2.lean) by `annot_res` (Lemmas/LevelFaithful.lean):
+  * `Faithful` on the store: the typechecker's simplifications (`if` with a test typed `True`/`False` returned with one
+    branch twice; `a && b` with `a` typed `False` and `a || b` with `a` typed `True` returned as `a`) preserve evaluation,
+    errors included — an expression typed `True` evaluates to `true` or fails, so the dropped branch/operand never runs;
+  * `Kinds`: the value at each evaluated `.`/`has` target is an instance of its static type (entity uid / record);
+  * `Faithful` on the SLICE — not an instance of the former, because the slice violates a C03 premise (it lacks the other
+    action entities): a dropped operand is justified by level soundness of its guard's typed AST (guard over slice = guard
+    over store);
+  * `annotate_total` (Lemmas/LevelAnnot.lean): the typed AST exists whenever `typeOf` answers.
+  Theorems: `levelOk_env` / `level_sound_env` (one request environment, both validation modes on `InFragmentM`),
+  `levelOk_policy` / `level_sound_policy` (policy level, linked templates included: the request's environment is among those
+  checked and the slots are bound accordingly), `level_sound_strict` (= `level_sound`, static policy sets, authorizer
+  response), `level_sound_strict_sets` (decision, erroring policies, determining policies).
+  Premises of `level_sound` w.r.t. its first formulation — all C03's, added while proving, see its doc comment: `SchemaWF2`
+  (true of every schema Rust constructs), `ActionsPresent` (the store holds the schema's action entities — without it the
+  statement is FALSE in the model), distinct record-literal keys (a map in Rust), no slots in a static policy.
+  * `level_sound_fragment` (kept) — the earlier connective-free fragment under `SchemaWF` only, both modes.
+NOT proved: permissive-mode policies outside `InFragmentM .permissive` (C03's permissive soundness gap: `if`/set literals
+joining entity/record/set types); `level_sound` for templates is `level_sound_policy` (per policy), not restated for sets.
 -/
 namespace Cedar.C16
 open Cedar Cedar.Level Cedar.Slice
@@ -408,5 +421,123 @@ example : evaluate exReq (atLevel 2 exReq exStore) [] (chainFlag 1).erase = eval
     have : evaluate exReq exStore [] (TExpr.getAttr .entity (.var .principal) "next").erase = .ok (.prim (.entityUID (u "b"))) := by
       rfl
     rw [this] at hv; cases hv; rfl
+
+/-! ### non-vacuity of `level_sound_strict`: ALL its hypotheses instantiated
+
+schema `User { next: User, flag: Bool }`, action `view` on users; the store a → b → c → a, d → a plus the action entity;
+the static policy `permit when (true || principal.next.next.next.flag) && principal.next.flag`: the typechecker drops the
+3-hop operand of `||` (left operand typed `True`), so level 2 suffices although the condition mentions a level-4 access. -/
+
+def exStoreA : Entities := exStore ++ [(act, { attrs := [], ancestors := [], tags := [] })]
+def exCondS : Expr :=
+  .and (.or (.lit (.bool true)) (.getAttr (.getAttr (.getAttr (.getAttr (.var .principal) "next") "next") "next") "flag"))
+       (.getAttr (.getAttr (.var .principal) "next") "flag")
+def exPolicy : Policy := { id := "p0", effect := .permit, condition := exCondS, env := [] }
+
+theorem ex_schemaWF : C03.SchemaWF2 exSchema where
+  et_mono := by
+    intro T et h
+    have hm := C03.entityType?_mem' h
+    simp only [exSchema, List.mem_cons, Prod.mk.injEq, List.not_mem_nil, or_false] at hm
+    obtain ⟨rfl, rfl⟩ := hm
+    exact ⟨rfl, fun t ht => by simp [exUser] at ht⟩
+  act_wf := by
+    intro u a h
+    have hm := C03.action?_mem h
+    simp only [exSchema, List.mem_cons, Prod.mk.injEq, List.not_mem_nil, or_false] at hm
+    obtain ⟨rfl, rfl⟩ := hm
+    exact ⟨rfl, rfl⟩
+  no_action_etype := by
+    intro T hT
+    cases h : exSchema.entityType? T with
+    | none => rfl
+    | some et =>
+      have hm := C03.entityType?_mem' h
+      simp only [exSchema, List.mem_cons, Prod.mk.injEq, List.not_mem_nil, or_false] at hm
+      obtain ⟨rfl, _⟩ := hm
+      exact absurd hT (by decide)
+  ets_map := by
+    intro p hp
+    simp only [exSchema, List.mem_cons, List.not_mem_nil, or_false] at hp
+    subst hp; rfl
+  act_type := by
+    intro u a h
+    have hm := C03.action?_mem h
+    simp only [exSchema, List.mem_cons, Prod.mk.injEq, List.not_mem_nil, or_false] at hm
+    obtain ⟨rfl, _⟩ := hm
+    decide
+  act_anc_desc := by
+    intro u a h p hp
+    have hm := C03.action?_mem h
+    simp only [exSchema, List.mem_cons, Prod.mk.injEq, List.not_mem_nil, or_false] at hm
+    obtain ⟨rfl, rfl⟩ := hm
+    simp [exView] at hp
+  act_desc_anc := by
+    intro u a h d hd
+    have hm := C03.action?_mem h
+    simp only [exSchema, List.mem_cons, Prod.mk.injEq, List.not_mem_nil, or_false] at hm
+    obtain ⟨rfl, rfl⟩ := hm
+    simp [exView] at hd
+
+theorem ex_request : ConformsRequest exSchema exReq :=
+  (Cedar.C11.checkRequest_iff _ _).mp ((ok_iff_isOkB _).mpr (by decide +kernel))
+
+theorem ex_store : StoreConforms exSchema exStoreA := by
+  intro uid d h
+  have hm := C03.entities_find?_mem h
+  simp only [exStoreA, exStore, List.cons_append, List.nil_append, List.mem_cons, Prod.mk.injEq, List.not_mem_nil,
+    or_false] at hm
+  rcases hm with ⟨rfl, rfl⟩ | ⟨rfl, rfl⟩ | ⟨rfl, rfl⟩ | ⟨rfl, rfl⟩ | ⟨rfl, rfl⟩ <;>
+    exact (Cedar.C11.checkEntity_iff exSchema (by decide +kernel) _ _).mp ((ok_iff_isOkB _).mpr (by decide +kernel))
+
+theorem ex_actions : C03.ActionsPresent exSchema exStoreA := by
+  intro u a h
+  have hm := C03.action?_mem h
+  simp only [exSchema, List.mem_cons, Prod.mk.injEq, List.not_mem_nil, or_false] at hm
+  obtain ⟨rfl, _⟩ := hm
+  exact ⟨_, rfl⟩
+
+/-- the policy is strictly valid, needs level 2 (not 1), although its condition contains a level-4 access -/
+example : checkPolicy .strict exSchema .absent .absent exCondS = some [(exEnv, .bool)] := rfl
+example : levelPolicy 2 .strict exSchema .absent .absent exCondS = some [] := by decide +kernel
+example : levelPolicy 1 .strict exSchema .absent .absent exCondS = some [.maxExceeded 2] := by decide +kernel
+/-- the level-2 slice is a proper sub-store (it lacks `d`) -/
+example : (atLevel 2 exReq exStoreA).map (·.1) = [u "a", u "b", u "c", act] := by decide +kernel
+/-- `level_sound_strict` applies: every hypothesis holds on this input … -/
+example : isAuthorized exReq (atLevel 2 exReq exStoreA) [exPolicy] = isAuthorized exReq exStoreA [exPolicy] :=
+  level_sound_strict 2 exSchema [exPolicy] exReq exStoreA ex_schemaWF ex_request ex_store ex_actions (by
+    intro p hp
+    simp only [List.mem_singleton] at hp
+    subst hp
+    exact ⟨rfl, by decide, fun _ => rfl, ⟨[(exEnv, .bool)], rfl, rfl⟩, by decide +kernel⟩)
+/-- … and the response is not trivial: the policy is satisfied (b.flag = true) and determines `allow` -/
+example : (isAuthorized exReq exStoreA [exPolicy]).decision = .allow ∧ (isAuthorized exReq exStoreA [exPolicy]).reasons = ["p0"] := by
+  decide +kernel
+
+/-! ### why `ActionsPresent` is a premise: without the action entities the statement fails (in the model)
+
+`action view in [read]`; `if action in Action::"read" then true else principal.next.next.flag` is typed with the test `True`
+(from the schema's action hierarchy), so its typed AST is `if … then true else true`: level 1.  Over a store WITHOUT the
+action entities the test evaluates to `false`, the un-levelled `else` branch runs, and the level-1 slice lacks `b`. -/
+def readG : EntityUID := ⟨"Action", "read"⟩
+def exViewG : ActionEntry := { exView with ancestors := [readG] }
+def exReadG : ActionEntry :=
+  { principals := [], resources := [], context := .record [] false, descendants := [act], ancestors := [], attrs := [] }
+def exSchemaG : Schema := { ets := [("User", exUser)], acts := [(readG, exReadG), (act, exViewG)] }
+def exCondG : Expr :=
+  .ite (.binaryApp .mem (.var .action) (.lit (.entityUID readG))) (.lit (.bool true))
+       (.getAttr (.getAttr (.getAttr (.var .principal) "next") "next") "flag")
+def exPolicyG : Policy := { id := "g", effect := .permit, condition := exCondG, env := [] }
+def exReqD : Request := ⟨u "d", act, u "d", []⟩
+example : (checkPolicy .strict exSchemaG .absent .absent exCondG).map accepted = some true := by decide +kernel
+example : levelPolicy 1 .strict exSchemaG .absent .absent exCondG = some [] := by decide +kernel
+/-- `exStore` holds no action entity: slice and store disagree … -/
+example : (isAuthorized exReqD (atLevel 1 exReqD exStore) [exPolicyG]).decision = .deny ∧
+          (isAuthorized exReqD exStore [exPolicyG]).decision = .allow := by decide +kernel
+/-- … with the action entities (as `Entities::from_entities(.., schema)` adds them) they agree, as `level_sound_strict` says -/
+def exStoreG : Entities :=
+  exStore ++ [(readG, { attrs := [], ancestors := [], tags := [] }), (act, { attrs := [], ancestors := [readG], tags := [] })]
+example : (isAuthorized exReqD (atLevel 1 exReqD exStoreG) [exPolicyG]).decision = .allow ∧
+          (isAuthorized exReqD exStoreG [exPolicyG]).decision = .allow := by decide +kernel
 
 end Cedar.C16
